@@ -27,6 +27,7 @@ type C10Notif struct {
 	// 3 (raw only) a hand-built Notification carrying _meta among its additional fields
 	MetaForm int `json:"metaform,omitempty"`
 	Pad      int `json:"pad,omitempty"`
+	Txt      int `json:"txt,omitempty"` // index into c10Texts: awkward text in front of the padding of progress / log messages and custom parameters
 	Delay    int `json:"delay,omitempty"` // 0 none, 1 Gosched, k>=2: k*50us
 }
 
@@ -51,6 +52,22 @@ type C10Case struct {
 	Lives int `json:"lives,omitempty"`
 	// NoSession: the server is created WithoutSession() (sessions disabled) while answers to POST stay event streams
 	NoSession bool `json:"nosession,omitempty"`
+	// Reenter: every third notification makes its handler change the client's registrations from inside (a handler of another
+	// method is registered and removed again, as a one-shot handler would do)
+	Reenter bool `json:"reenter,omitempty"`
+}
+
+// texts a message may hold: control characters, DEL, quotes and backslashes, line separators, an unprintable astral rune, bytes
+// that are not UTF-8 (encoding/json replaces those by U+FFFD: the expectation does the same)
+var c10Texts = []string{"", "bell\a tab\t vt\v nul\x00 esc\x1b", "del\x7f c1\u0085", `quote" back\slash </script> &amp;`, "ls\u2028ps\u2029", "tag\U000E0001 pua\U0010FFFD", "bad\xff\xfeutf8 \xc0\xaf", "%d %s %%", "emoji \U0001F600 ünï"}
+
+func c10Text(n C10Notif) string {
+	// what encoding/json makes of the text: every byte that is not part of a UTF-8 sequence becomes one U+FFFD
+	var b strings.Builder
+	for _, r := range c10Texts[n.Txt%len(c10Texts)] {
+		b.WriteRune(r) // ranging over a string yields U+FFFD once per invalid byte
+	}
+	return b.String() + strings.Repeat("z", n.Pad)
 }
 
 var c10Methods = []string{"notifications/progress", "notifications/message", "notifications/custom-a", "custom/b", "x"}
@@ -86,12 +103,16 @@ func genC10(t *rapid.T) C10Case {
 			if rapid.IntRange(0, 9).Draw(t, "big") == 0 {
 				nf.Pad = rapid.SampledFrom([]int{5000, 70000, 200000}).Draw(t, "pad")
 			}
+			if rapid.IntRange(0, 3).Draw(t, "txt?") == 0 {
+				nf.Txt = rapid.IntRange(1, len(c10Texts)-1).Draw(t, "txt")
+			}
 			call.Notifs = append(call.Notifs, nf)
 		}
 		call.Fail = rapid.IntRange(0, 5).Draw(t, "callfails") == 0
 		c.Calls = append(c.Calls, call)
 	}
 	c.NoSession = c.Mode == ModeSS && rapid.IntRange(0, 3).Draw(t, "nosession") == 0
+	c.Reenter = rapid.IntRange(0, 3).Draw(t, "reenter") == 0
 	if rapid.IntRange(0, 4).Draw(t, "lives") == 0 {
 		c.Lives = rapid.IntRange(1, 2).Draw(t, "nlives")
 	}
@@ -199,7 +220,7 @@ func execC10(c C10Case) *Failure {
 				time.Sleep(time.Duration(n.Delay) * 50 * time.Microsecond)
 			}
 			tag := fmt.Sprintf("c%dn%d", ci, j)
-			pad := strings.Repeat("z", n.Pad)
+			pad := c10Texts[n.Txt%len(c10Texts)] + strings.Repeat("z", n.Pad)
 			var err error
 			switch n.Kind {
 			case "bad":
@@ -219,7 +240,7 @@ func execC10(c C10Case) *Failure {
 				params := map[string]interface{}{}
 				json.Unmarshal(n.Params, &params)
 				params["tag"] = tag
-				if n.Pad > 0 {
+				if n.Pad > 0 || n.Txt > 0 {
 					params["pad"] = pad
 				}
 				handBuilt := false
@@ -297,6 +318,7 @@ func execC10(c C10Case) *Failure {
 	var mu sync.Mutex
 	seen := map[int][]c10Seen{} // call index -> notifications recorded
 	registered := map[string]bool{}
+	var reenterStuck atomic.Bool
 	for _, m := range c.Handlers {
 		m := m
 		registered[m] = true
@@ -318,6 +340,19 @@ func execC10(c C10Case) *Failure {
 			mu.Lock()
 			seen[ci] = append(seen[ci], s)
 			mu.Unlock()
+			if c.Reenter && s.seq%3 == 0 {
+				rdone := make(chan struct{})
+				go func() {
+					lc.C.RegisterNotificationHandler("reenter/one-shot", func(*mcp.JSONRPCNotification) error { return nil })
+					lc.C.UnregisterNotificationHandler("reenter/one-shot")
+					close(rdone)
+				}()
+				select {
+				case <-rdone:
+				case <-time.After(Patience()):
+					reenterStuck.Store(true)
+				}
+			}
 			if len(c.HErrs) > 0 && c.HErrs[int(s.seq)%len(c.HErrs)] {
 				return fmt.Errorf("handler does not like %s", tag)
 			}
@@ -378,6 +413,9 @@ func execC10(c C10Case) *Failure {
 		}(ci)
 	}
 	wg.Wait()
+	if reenterStuck.Load() {
+		return TimingFailf("C10/handler-reentry-blocks", "%s: a notification handler registered and removed another handler on its client; those calls had not returned %v later (the dispatch holds a lock while it runs handlers?)", c.Mode, Patience())
+	}
 	sseMode := c.Mode.PostSSE()
 	if c.Late > 0 {
 		// every registration has returned: a later call's notifications reach those handlers
@@ -452,7 +490,7 @@ func execC10(c C10Case) *Failure {
 			if g.method != n.method() {
 				return Failf("C10/order-or-method", "%s: position %d holds a %q notification, emission order has %q (%s) there", where, k, g.method, n.method(), tag)
 			}
-			pad := strings.Repeat("z", n.Pad)
+			pad := c10Text(n)
 			switch n.Kind {
 			case "progress":
 				if g.params["message"] != tag+"|"+pad || g.params["progress"] != float64(j)+0.5 {
@@ -467,7 +505,7 @@ func execC10(c C10Case) *Failure {
 				wantP := map[string]interface{}{}
 				json.Unmarshal(n.Params, &wantP)
 				wantP["tag"] = tag
-				if n.Pad > 0 {
+				if n.Pad > 0 || n.Txt > 0 {
 					wantP["pad"] = pad
 				}
 				delete(wantP, "_meta")
